@@ -179,7 +179,10 @@ func (t *c16Tracker) apply(r c16Round, initial bool, ago time.Duration) {
 			if len(newTitle) > 40 {
 				newTitle = newTitle[:40]
 			}
-			if newTitle == "" || strings.Contains(newTitle, "**") || strings.ContainsAny(newTitle, "{}+") {
+			// a title that is blank by git-bug's own rule (only spaces and non-graphic runes, e.g. a lone zero-width
+			// space) cannot be represented: the importer reports an error for that issue on every run (noted in
+			// DESIGN.md, not asserted); the simulated tracker does not hold such titles
+			if isEmptyText(newTitle) || strings.Contains(newTitle, "**") || strings.ContainsAny(newTitle, "{}+") {
 				newTitle = fmt.Sprintf("retitled %d", t.seq)
 			}
 			now := t.tick()
@@ -211,9 +214,10 @@ func (t *c16Tracker) apply(r c16Round, initial bool, ago time.Duration) {
 }
 
 type c16Repo struct {
-	dir  string
-	repo *repository.GoGitRepo
-	rc   *cache.RepoCache
+	dir        string
+	repo       *repository.GoGitRepo
+	rc         *cache.RepoCache
+	lastErrors []string // texts of the error events of the import rounds
 }
 
 func newC16Repo(baseURL string) (*c16Repo, error) {
@@ -276,6 +280,7 @@ func (r *c16Repo) importRound() (results []core.ImportResult, hadError bool, err
 		results = append(results, res)
 		if res.Event == core.ImportEventError {
 			hadError = true
+			r.lastErrors = append(r.lastErrors, fmt.Sprint(res.Err)+" "+res.String())
 		}
 	}
 	return results, hadError, nil
@@ -496,7 +501,7 @@ func runC16(tb report.TB, rep *report.Reporter, c c16Case) {
 	_, hadErr, err := fresh.importRound()
 	if err != nil || hadErr {
 		fresh.close()
-		if fail("fresh-import-reports-error", fmt.Sprint(err)) {
+		if fail("fresh-import-reports-error", fmt.Sprintf("%v %v", err, fresh.lastErrors)) {
 			return
 		}
 	}
